@@ -7,6 +7,7 @@ import HT.Model.ServerDrv
 import HT.Model.Limiter
 import HT.Model.JA3
 import HT.Model.Auth
+import HT.Model.Event
 /-!
 Line-protocol driver: one case per input line, `<model> <args…>`; one output line
 per case.  Core Lean only (so it links as an executable).
@@ -28,6 +29,7 @@ def dispatch (line : String) : String :=
   | "bucket" :: args => Lim.bucketDriver args
   | "ja3" :: args => JA3.driver args
   | "auth" :: args => Auth.driver args
+  | "ev" :: args => Ev.driver args
   | _ => "bad-model"
 
 partial def loop (h : IO.FS.Stream) (out : IO.FS.Stream) : IO Unit := do
